@@ -137,6 +137,37 @@ MANIFEST = {
 }
 
 
+def vd_sync(k: int, l0: int) -> bool:
+    """
+    pre: 1 <= k <= 0x10000 and 0 <= l0 <= 0x3ffff800
+    post: _
+    """
+    # C03.e: every volume descriptor that describes the ISO9660 root (the PVD, its duplicates, the ISO9660:1999 enhanced descriptor) records
+    # the SAME root extent and length after the real layout pass, from an ARBITRARY root length of k blocks (the root's own length is the
+    # packing lemma's business, C03.d) and a file of symbolic length; decoded both-endian from the bytes each descriptor's record() emits
+    iso = skel.new_iso(CFG)
+    iso.duplicate_pvd()
+    fp = h.InFP()
+    iso.add_fp(fp, l0, **skel.fkw(CFG, 'AAA'))
+    iso.add_directory(**skel.dkw(CFG, 'DIR1'))
+    iso.pvd.root_directory_record().data_length = 2048 * k
+    iso._finish_add((k - 1) * 2048, 0)          # the real space accounting for the k-1 extra root blocks (keeps the volume-size invariant)
+    iso._reshuffle_extents()
+    root = iso.pvd.root_directory_record()
+    ok = True
+    n = 0
+    for v in list(iso.pvds) + ([iso.enhanced_vd] if iso.enhanced_vd is not None else []):
+        raw = v.record()
+        ext, ok = ref.both(raw, 156 + 2, 4, ok)
+        ln, ok = ref.both(raw, 156 + 10, 4, ok)
+        sp, ok = ref.both(raw, 80, 4, ok)
+        ok = ok & (ext == root.extent_location()) & (ln == 2048 * k) & (sp == iso.pvd.space_size)
+        n += 1
+    if n != (3 if CFG['il'] == 4 else 2):
+        return False
+    return h.post(ok)
+
+
 def obligations(tier):
     quick = tier == 'quick'
     obs = []
@@ -158,6 +189,13 @@ def obligations(tier):
     # outside the claim; the seeded change C03-1 that needs it is therefore NOT caught (recorded in DESIGN.md).
     from vf.props import packing
     obs += packing.obligations_for('C03.d', tier)
+    for c in ([skel.cfg_of(4, None, None, False, False), skel.cfg_of(4, 3, '1.09', False, False)] if quick else
+              [skel.cfg_of(4, None, None, False, False), skel.cfg_of(4, 3, '1.09', False, False), skel.cfg_of(4, 3, '1.12', True, False), skel.cfg_of(3, None, None, False, False)]):
+        obs.append({'name': 'C03.e/vd_sync/%s' % skel.cfg_name(c), 'module': __name__, 'func': 'vd_sync', 'params': {'cfg': c}, 'cond_timeout': 900, 'path_timeout': 200,
+                    'bounds': 'root directory of k blocks, k in [1, 65536] (set directly: one inductive step of the layout pass from an arbitrary root length); '
+                              'one file of length in [0, 0x3ffff800]; a duplicate PVD; config %s' % skel.cfg_name(c),
+                    'functions': ['PyCdlib._reshuffle_extents', '_reassign_vd_dirrecord_extents', 'PrimaryOrSupplementaryVD.record', 'PyCdlib.duplicate_pvd'],
+                    'samples': [(1, 5), (3, 0)], 'stubs': ['M_struct']})
     obs.append({'name': 'C03.c/lt_order', 'module': __name__, 'func': 'lt_order', 'params': {}, 'cond_timeout': 900, 'path_timeout': 100,
                 'bounds': 'all triples of identifiers of 1..3 bytes', 'functions': ['DirectoryRecord.__lt__']})
     return obs
